@@ -3953,3 +3953,12 @@ impl TransportManager {
         }
     }
 }
+
+#[cfg(litep2p_verif)]
+impl TransportManager {
+    /// Sender of the event channel of an installed protocol (verification hook: lets the manager
+    /// harness fill a protocol's inbox the way a burst of events does).
+    pub fn verif_protocol_tx(&self, protocol: &ProtocolName) -> Option<Sender<InnerTransportEvent>> {
+        self.protocols.get(protocol).map(|context| context.tx.clone())
+    }
+}
